@@ -34,7 +34,7 @@ INVS_SAFETY = ["ResultAuthentic", "CacheAuthentic", "ConfigAuthentic", "HonestLi
 def make(name, clients, client_of, lookups, h, prefix, size_a, size_b, served, max_grow=0, serve_tls=("A",), max_switch=0, coarse=True,
          max_faults=0, fault_kinds=(), tile_detail=True, partial_gone=False, max_restarts=0, init_cfgs=(None,), skip=(),
          invariants=INVS_SAFETY, properties=("ConfigChain", "MemChain"), emit=True, view=False, extra_invs=(), kind="behaviour", emit_cond="TRUE",
-         scenario=None, init_disk_full=False, max_env=0):
+         scenario=None, init_disk_full=False, max_env=0, init_lookups=()):
     """Returns (module_text, cfg_text)."""
     mod = ["---- MODULE %s ----" % name, "EXTENDS SumdbClient, Json",
            "MC_ClientOf == " + tla_fun(client_of, lambda v: '"%s"' % v),
@@ -62,7 +62,7 @@ def make(name, clients, client_of, lookups, h, prefix, size_a, size_b, served, m
            'ScenView == <<View, %s>>' % (scenario or "TRUE"),
            'Emit == (AllDone /\\ %s) => PrintT(ToJson([w |-> "client", k |-> "%s",' % (emit_cond, kind),
            '    in |-> [h |-> H, prefix |-> Prefix, sizeA |-> SizeA, sizeB |-> SizeB, served |-> InitServed, cfg0 |-> hist[1].head,',
-           '            clientOf |-> ClientOf, skip |-> Skip, disk0 |-> InitDiskFull, ops |-> hist],',
+           '            clientOf |-> ClientOf, skip |-> Skip, disk0 |-> InitDiskFull, lookups0 |-> InitLookups, ops |-> hist],',
            '    exp |-> [results |-> results, cfg |-> cfg, files |-> DOMAIN disk]]))',
            "===="]
     invs = list(invariants) + list(extra_invs) + (["Emit"] if emit else [])
@@ -71,7 +71,7 @@ def make(name, clients, client_of, lookups, h, prefix, size_a, size_b, served, m
            "  Threads = " + tla_set(list(client_of)),
            "  H = %d" % h, "  Prefix = %d" % prefix, "  SizeA = %d" % size_a, "  SizeB = %d" % size_b,
            "  MaxGrow = %d" % max_grow, "  ServeTls = " + tla_set(serve_tls), "  MaxSwitch = %d" % max_switch, "  MaxEnv = %d" % max_env, "  Coarse = %s" % ("TRUE" if coarse else "FALSE"), "  MaxFaults = %d" % max_faults,
-           "  FaultKinds = " + tla_set(fault_kinds), "  TileDetail = %s" % ("TRUE" if tile_detail else "FALSE"), "  PartialMayBeGone = %s" % ("TRUE" if partial_gone else "FALSE"), "  InitDiskFull = %s" % ("TRUE" if init_disk_full else "FALSE"),
+           "  FaultKinds = " + tla_set(fault_kinds), "  TileDetail = %s" % ("TRUE" if tile_detail else "FALSE"), "  PartialMayBeGone = %s" % ("TRUE" if partial_gone else "FALSE"), "  InitDiskFull = %s" % ("TRUE" if init_disk_full else "FALSE"), "  InitLookups = " + tla_set(init_lookups, quote=False),
            "  MaxRestarts = %d" % max_restarts, "  Skip = " + tla_set(skip, quote=False),
            "  ClientOf <- MC_ClientOf", "  Lookups <- MC_Lookups", "  InitServed <- MC_InitServed", "  InitCfgs <- MC_InitCfgs",
            "INIT Init", "NEXT Next"]
@@ -185,6 +185,11 @@ def c01_configs(tier):
     for na, served, h, k in (((8, 6, 2, 5), (5, 3, 1, 2), (8, 7, 2, 0)) if q else ((8, 6, 2, 5), (8, 7, 2, 6), (8, 7, 2, 0), (5, 3, 1, 2), (9, 5, 2, 4), (12, 10, 3, 9), (16, 13, 2, 12))):
         cfgs.append(dict(clients=["c1"], client_of={"t1": "c1"}, lookups={"t1": [k, 0]}, h=h, prefix=0, size_a=na, size_b=0,
                          served={"A": served}, max_faults=0, fault_kinds=[], init_disk_full=True, max_restarts=1))
+    # (g) a record cache kept from an earlier run while the stored head was lost or restored from an older copy: honest lookup files
+    #     under a head the configuration does not know yet (with and without one corrupted response)
+    for na, h in (((3, 1), (5, 2)) if q else ((3, 1), (5, 2), (4, 2), (7, 2), (9, 3))):
+        cfgs.append(one([na - 1, 0, 1], h, na, init_lookups=(0, na - 1), init_cfgs=[None, ("A", 1)], max_faults=0, fault_kinds=[], max_restarts=1))
+        cfgs.append(one([na - 1, 0], h, na, init_lookups=(0, na - 1), init_cfgs=[None, ("A", 1)], max_faults=1, fault_kinds=ALL_FAULTS))
     return cfgs
 
 
